@@ -31,6 +31,9 @@ def extra_networks(n0, k1, k2):
         # consumed at the firing time and given back by the delayed part (gene busy during transcription), non-mass-action rate
         spec('S6_returned_reactant', [A, B, C], {A: n0, B: 0, C: 3},
              [dict(hill('hillpositive', [A], [], k1, 2.0, 1.0, C), delay=dict(type='fixed', delay=0.6, reactants=[], products=[A, B])), ma([B], [], k2)]),
+        # the under-supplied reactions are NOT the first ones of the model (per-reaction scan state must be reset)
+        spec('S7_late_consumers', [A, B, C], {A: n0, B: 1, C: 2},
+             [ma([B], [A], k2), gen([A], [B], ('num', 1.7)), gen([C], [], ('num', 1.1)), gen([A, C], [B], ('num', 0.6))]),
     ]
 
 
@@ -156,13 +159,16 @@ def run_config(c, cfg):
     qdt = TIMES[1] - TIMES[0]
     states = set()
     nviol = [0]
+    from bioscrape.simulator import ArrayDelayQueue
+    template = ArrayDelayQueue.setup_queue(len(sp['reactions']), len(TIMES), qdt)
 
     def impl_run(us):
         if sim == 'ssa':
             return impl.run_ssa(us, TIMES, dt=qdt)
         if sim == 'volume':
             return e1.run_volume(impl, us, TIMES, qdt, dict(type='const', V=V))
-        return e1.run_delay(impl, us, TIMES, qdt, len(TIMES), dt=qdt)
+        # every run gets its queue as a copy of one template (independence of copies is part of what makes a path feasible)
+        return e1.run_delay(impl, us, TIMES, qdt, len(TIMES), dt=qdt, template=template)
 
     def judge(us, tag, letters=None):
         got = impl_run(us)
